@@ -104,7 +104,10 @@ def generate(tier, rng):
     wmode = rng.choice(['pow2', 'pow2', 'pow2', 'zero', 'int', 'generic'])
     exact = wmode in ('pow2', 'zero')
     k = size(st)
-    if exact:
+    dtype = 'int32' if exact and i % 6 == 1 else 'float32'
+    if dtype == 'int32':
+      trees = [[float(rng.randrange(-40, 41)) for _ in range(k)] for _ in range(n)]
+    elif exact:
       trees = [[dyadic(rng) for _ in range(k)] for _ in range(n)]
     else:
       trees = [[rng.choice([dyadic(rng), rng.uniform(-3, 3), rng.gauss(0, 100)]) for _ in range(k)] for _ in range(n)]
@@ -120,18 +123,20 @@ def generate(tier, rng):
     rng.shuffle(perm)
     yield {'kind': rng.choice(['mean', 'mean', 'agg']), 'struct': st, 'trees': trees, 'weights': ws, 'perm': perm,
            'input': rng.choice(['list', 'tuple', 'gen', 'iter']), 'wtype': rng.choice(['float', 'float', 'int', 'np32', 'jnp']),
-           'leaf': rng.choice(['jax', 'jax', 'jax', 'np']), 'tol': 0.0 if exact else TOL}
+           'leaf': rng.choice(['jax', 'jax', 'jax', 'np']), 'tol': 0.0 if exact else TOL, 'dtype': dtype}
   for i in range(n_sum):
     st = rng.choice(structs)
     n = rng.choice([1, 1, 2, 3, 4, 6])
     k = size(st)
     exact = i % 4 != 0
-    trees = [[dyadic(rng) if exact else rng.gauss(0, 10) for _ in range(k)] for _ in range(n)]
+    dtype = 'int32' if exact and i % 5 == 1 else 'float32'
+    trees = [[float(rng.randrange(-40, 41)) if dtype == 'int32' else dyadic(rng) if exact else rng.gauss(0, 10)
+              for _ in range(k)] for _ in range(n)]
     perm = list(range(n))
     rng.shuffle(perm)
     yield {'kind': 'sum', 'struct': st, 'trees': trees, 'weights': [], 'perm': perm,
            'input': rng.choice(['list', 'tuple', 'gen', 'iter']), 'wtype': 'float',
-           'leaf': rng.choice(['jax', 'jax', 'np']), 'tol': 0.0 if exact else TOL}
+           'leaf': rng.choice(['jax', 'jax', 'np']), 'tol': 0.0 if exact else TOL, 'dtype': dtype}
   trip = [(3, 4, 5), (5, 12, 13), (8, 15, 17), (7, 24, 25), (1, 0, 1), (0, 0, 0), (2, 3, 6, 7), (1, 4, 8, 9), (2, 6, 9, 11),
           (1, 2, 2, 3), (4, 4, 7, 9), (2, 10, 11, 15), (0, 0, 0, 0), (1, 1, 1, 1, 2), (2, 4, 5, 6, 9)]
   for i in range(n_clip):
@@ -271,7 +276,8 @@ def _call(case, order):
   import fedjax
   from fedjax.core import tree_util
   st, kind = case['struct'], case['kind']
-  mk = (lambda a: jnp.asarray(a, dtype=jnp.float32)) if case['leaf'] == 'jax' else (lambda a: np.asarray(a, dtype=np.float32))
+  dt = np.dtype(case.get('dtype', 'float32'))
+  mk = (lambda a: jnp.asarray(a, dtype=dt)) if case['leaf'] == 'jax' else (lambda a: np.asarray(a, dtype=dt))
   trees = [build(st, case['trees'][i], mk) for i in order]
   snaps = [[np.array(l, copy=True) for l in _leaves(t)] for t in trees]
   ws = [case['weights'][i] for i in order] if kind in ('mean', 'agg') else case['weights']
@@ -306,7 +312,7 @@ def _call(case, order):
   res = jax.block_until_ready(res)
   same_struct = (res is not None and jax.tree_util.tree_structure(res) == jax.tree_util.tree_structure(trees[0]) and
                  [tuple(np.shape(l)) for l in _leaves(res)] == [tuple(np.shape(l)) for l in _leaves(trees[0])] and
-                 all(np.asarray(l).dtype == np.float32 for l in _leaves(res)))
+                 all(np.asarray(l).dtype == (dt if kind in ('sum', 'add') else np.float32) for l in _leaves(res)))
   one_shot = None
   if it is not None:
     one_shot = {'taken': it.i, 'len': len(it._items), 'iter_calls': it.iter_calls, 'after_end': it.after_end}  # pylint: disable=protected-access
@@ -359,7 +365,7 @@ def oracle(case, obs):
   if res is None:
     return [('returns-none', f'{kind} returned None for a non-empty input')]
   if not obs['struct_ok']:
-    out.append(('structure', 'result does not have the structure / leaf shapes / float32 dtype of the inputs'))
+    out.append(('structure', 'result does not have the structure / leaf shapes of the inputs (dtype: the inputs\' for sums, float32 for means)'))
   for p in obs['inputs'] + obs['inputs_perm']:
     out.append(('input-' + p, f'{kind}: a caller input array was {p} by the call'))
   os_ = obs['one_shot']
@@ -466,6 +472,7 @@ def nontrivial(case, obs):
 
 def describe(case, obs):
   d = {'kind': case['kind'], 'clients': len(case['trees']), 'input': case['input'], 'exact': case['tol'] == 0,
+       'dtype': case.get('dtype', 'float32'),
        'leaves': min(len(leaf_shapes(case['struct'])), 6)}
   if case['kind'] in ('mean', 'agg'):
     ws = case['weights']
